@@ -469,6 +469,20 @@ func execScope(input string) Result {
 	if in.C != "" {
 		tags = append(tags, "cfg:"+in.C)
 	}
+	for _, l := range [][]string{in.IS, in.ES} {
+		for _, f := range l {
+			if f != strings.ToLower(f) {
+				kinds["cfg:string-filter-with-upper-case"] = true
+			}
+		}
+	}
+	for _, l := range [][]string{in.IH, in.EH} {
+		for _, f := range l {
+			if f != strings.ToLower(f) {
+				kinds["cfg:host-filter-with-upper-case"] = true
+			}
+		}
+	}
 	tags = append(tags, fmt.Sprintf("exclusion-files:%d", nfiles))
 	if nfiles >= 2 && nlines > len(in.files()[nfiles-1]) {
 		tags = append(tags, "exclusion-files:regex-outside-last-file")
@@ -581,7 +595,7 @@ func init() {
 		Footer:   stdFooter,
 		Rule: "one case = one item tree (seed alone / redirect chains / assets, depth 0-3, consistent and a few inconsistent parents) whose nodes at the working depth carry raw URLs from a grammar " +
 			"(absolute, scheme-relative, path-absolute, path-relative, query/fragment-only, scheme-less, other schemes; hosts: plain, with port, userinfo, IDN/punycode, upper-case, percent-encoded, " +
-			"hosts containing the excluded strings, localhost/127.0.0.1 in several spellings, dot-less, IPv6; quotes, white space, backslashes) under one of 40 fixed filter configurations or a random one, the exclusion regexes spread over 0-3 real --exclusion-file files (empty files, duplicates across files); " +
+			"hosts containing the excluded strings, localhost/127.0.0.1 in several spellings, dot-less, IPv6; quotes, white space, backslashes) under one of 46 fixed filter configurations (string and host filters with upper-case letters included; about a fifth of the leaves are planted references that contain a filter string as typed or with other letter case) or a random one, the exclusion regexes spread over 0-3 real --exclusion-file files (empty files, duplicates across files); " +
 			"distinct by input text; non-trivial when at least one node got a request and at least one was rejected (normalisation or filters)",
 		Setup:    setupScope,
 		Gen:      genScope,
